@@ -1209,9 +1209,16 @@ fn log_case(out: &mut Sink, seed: u64, case: usize) {
                 match RollbackSim::open(&dir, maxlen, published.0, published.1) {
                     Ok(s) => sim = s,
                     Err(e) => {
-                        out.line(format!("rb-open {maxlen} {} {}", published.0, published.1), "err".into());
+                        // strict sequences (what the API can issue: every truncate is followed by its sync before the next commit) must
+                        // reopen.  Free sequences can publish a range whose records a STALE pending truncation has wiped (commits between a
+                        // truncate and its sync — only reachable through the API after a failed rollback, see DESIGN §6 observations): a range
+                        // naming records that do not exist is outside the documented domain of the mirror `Rb.read`, the line is not compared
                         if strict {
+                            out.line(format!("rb-open {maxlen} {} {}", published.0, published.1), "err".into());
                             out.fail(format!("C10 Rollback::read with the published range {published:?} failed: {e:#}"));
+                        } else {
+                            out.line(format!("rb-open {maxlen} {} {}", published.0, published.1), "skip".into());
+                            out.count("log_reopen_err_outside_api_discipline");
                         }
                         let _ = std::fs::remove_dir_all(&dir);
                         return;
